@@ -15,7 +15,7 @@ def metaOp (m : MFS) (p : Path) (follow : Bool) (f : Node → Node) : MFS × Exc
   | .missing _ _ => (m, .error .notExist)
   | .found k n => (m.set k (some (f n)), .ok ())
 
-theorem chmod_eq (m : MFS) (p : Path) (mode : Nat) :
+theorem mfs_chmod_eq (m : MFS) (p : Path) (mode : Nat) :
     m.chmod p mode = metaOp m p true (fun n => n.setMeta { n.meta with mode := mode &&& 0o7777 }) := by
   unfold MFS.chmod metaOp
   cases namei m p true <;> rfl
@@ -23,15 +23,15 @@ theorem chmod_eq (m : MFS) (p : Path) (mode : Nat) :
 def chownF (uid gid : Int) (n : Node) : Node :=
   n.setMeta { n.meta with uid := if uid < 0 then n.meta.uid else uid.toNat, gid := if gid < 0 then n.meta.gid else gid.toNat, mode := if n.isLink then n.meta.mode else chownMode n }
 
-theorem chown_eq (m : MFS) (p : Path) (u g : Int) : m.chown p u g = metaOp m p true (chownF u g) := by
+theorem mfs_chown_eq (m : MFS) (p : Path) (u g : Int) : m.chown p u g = metaOp m p true (chownF u g) := by
   unfold MFS.chown metaOp
   cases namei m p true <;> rfl
 
-theorem lchown_eq (m : MFS) (p : Path) (u g : Int) : m.lchown p u g = metaOp m p false (chownF u g) := by
+theorem mfs_lchown_eq (m : MFS) (p : Path) (u g : Int) : m.lchown p u g = metaOp m p false (chownF u g) := by
   unfold MFS.lchown metaOp
   cases namei m p false <;> rfl
 
-theorem chtimes_eq (m : MFS) (p : Path) (t : Time) :
+theorem mfs_chtimes_eq (m : MFS) (p : Path) (t : Time) :
     m.chtimes p t = metaOp m p true (fun n => n.setMeta { n.meta with mtime := t }) := by
   unfold MFS.chtimes metaOp
   cases namei m p true <;> rfl
@@ -122,7 +122,7 @@ theorem os_chmod_frame {m m' : MFS} {s : Side} {k : Key} {mode : Nat} {r : Excep
     OSGood bk kk m' ∧ osView bk kk s.other m' = osView bk kk s.other m ∧
       (∀ j, j ≠ k → osView bk kk s m' j = osView bk kk s m j) :=
   meta_frame hr hg hk (kk_chmod mode) (tr_chmod (hr.pkey s) hk mode)
-    (by show liftU (m.chmod _ _) = _; rw [chmod_eq]) h
+    (by show liftU (m.chmod _ _) = _; rw [mfs_chmod_eq]) h
 
 theorem os_chmod_some {m : MFS} {s : Side} {k : Key} {mode : Nat} {n : Node} (hr : Roots bk kk)
     (hg : OSGood bk kk m) (hk : PKey k) (hv : osView bk kk s m k = some n) :
@@ -130,7 +130,7 @@ theorem os_chmod_some {m : MFS} {s : Side} {k : Key} {mode : Nat} {n : Node} (hr
       osView bk kk s m' k = some (n.setMeta { n.meta with mode := mode &&& 0o7777 }) := by
   obtain ⟨n0, h0, he⟩ := osView_some hv
   obtain ⟨m', e1, e2⟩ := meta_some (c := .chmod (kp k) mode) hr hg hk (tr_chmod (hr.pkey s) hk mode)
-    (by show liftU (m.chmod _ _) = _; rw [chmod_eq]) h0
+    (by show liftU (m.chmod _ _) = _; rw [mfs_chmod_eq]) h0
   refine ⟨m', e1, ?_⟩
   rw [e2, ← he]
   cases n0 <;> rfl
@@ -140,14 +140,14 @@ theorem os_chown_frame {m m' : MFS} {s : Side} {k : Key} {u g : Int} {r : Except
     OSGood bk kk m' ∧ osView bk kk s.other m' = osView bk kk s.other m ∧
       (∀ j, j ≠ k → osView bk kk s m' j = osView bk kk s m j) :=
   meta_frame hr hg hk (kk_chown u g) (tr_chown (hr.pkey s) hk u g)
-    (by show liftU (m.chown _ _ _) = _; rw [chown_eq]) h
+    (by show liftU (m.chown _ _ _) = _; rw [mfs_chown_eq]) h
 
 theorem os_lchown_frame {m m' : MFS} {s : Side} {k : Key} {u g : Int} {r : Except Err Ret} (hr : Roots bk kk)
     (hg : OSGood bk kk m) (hk : PKey k) (h : ((osCfg bk kk).side s).call m (.lchown (kp k) u g) = (m', r)) :
     OSGood bk kk m' ∧ osView bk kk s.other m' = osView bk kk s.other m ∧
       (∀ j, j ≠ k → osView bk kk s m' j = osView bk kk s m j) :=
   meta_frame hr hg hk (kk_chown u g) (tr_lchown (hr.pkey s) hk u g)
-    (by show liftU (m.lchown _ _ _) = _; rw [lchown_eq]) h
+    (by show liftU (m.lchown _ _ _) = _; rw [mfs_lchown_eq]) h
 
 theorem os_chown_some {m : MFS} {s : Side} {k : Key} {u g : Int} {n : Node} (hr : Roots bk kk)
     (hg : OSGood bk kk m) (hk : PKey k) (hv : osView bk kk s m k = some n) :
@@ -155,7 +155,7 @@ theorem os_chown_some {m : MFS} {s : Side} {k : Key} {u g : Int} {n : Node} (hr 
       osView bk kk s m' k = some (chownNode n u g) := by
   obtain ⟨n0, h0, he⟩ := osView_some hv
   obtain ⟨m', e1, e2⟩ := meta_some (c := .chown (kp k) u g) hr hg hk (tr_chown (hr.pkey s) hk u g)
-    (by show liftU (m.chown _ _ _) = _; rw [chown_eq]) h0
+    (by show liftU (m.chown _ _ _) = _; rw [mfs_chown_eq]) h0
   refine ⟨m', e1, ?_⟩
   rw [e2, ← he]
   cases n0 <;> rfl
@@ -165,7 +165,7 @@ theorem os_chtimes_frame {m m' : MFS} {s : Side} {k : Key} {a t : Time} {r : Exc
     OSGood bk kk m' ∧ osView bk kk s.other m' = osView bk kk s.other m ∧
       (∀ j, j ≠ k → osView bk kk s m' j = osView bk kk s m j) :=
   meta_frame hr hg hk (kk_chtimes t) (tr_chtimes (hr.pkey s) hk a t)
-    (by show liftU (m.chtimes _ _) = _; rw [chtimes_eq]) h
+    (by show liftU (m.chtimes _ _) = _; rw [mfs_chtimes_eq]) h
 
 theorem os_chtimes_file {m : MFS} {s : Side} {k : Key} {a t : Time} {c : String} {mt : Meta} (hr : Roots bk kk)
     (hg : OSGood bk kk m) (hk : PKey k) (hv : osView bk kk s m k = some (.file c mt)) :
@@ -175,7 +175,7 @@ theorem os_chtimes_file {m : MFS} {s : Side} {k : Key} {a t : Time} {c : String}
   rw [eraseMt_file] at he
   subst he
   obtain ⟨m', e1, e2⟩ := meta_some (c := .chtimes (kp k) a t) hr hg hk (tr_chtimes (hr.pkey s) hk a t)
-    (by show liftU (m.chtimes _ _) = _; rw [chtimes_eq]) h0
+    (by show liftU (m.chtimes _ _) = _; rw [mfs_chtimes_eq]) h0
   exact ⟨m', e1, e2⟩
 
 theorem os_chtimes_dir {m : MFS} {s : Side} {k : Key} {a t : Time} (hr : Roots bk kk)
@@ -184,7 +184,7 @@ theorem os_chtimes_dir {m : MFS} {s : Side} {k : Key} {a t : Time} (hr : Roots b
       osView bk kk s m' k = osView bk kk s m k := by
   obtain ⟨mt, h0⟩ := osView_isDirAt hv
   obtain ⟨m', e1, e2⟩ := meta_some (c := .chtimes (kp k) a t) hr hg hk (tr_chtimes (hr.pkey s) hk a t)
-    (by show liftU (m.chtimes _ _) = _; rw [chtimes_eq]) h0
+    (by show liftU (m.chtimes _ _) = _; rw [mfs_chtimes_eq]) h0
   refine ⟨m', e1, ?_⟩
   rw [e2, osView_eq, h0]
   rfl
